@@ -44,12 +44,14 @@ CHECKS['C02'] = {
     'text': ('PROVED for all inputs (no-LM configuration): compute_Pb / compute_Pnb / compute_Plm / get_reduced_Pc / get_reduced_last_chars / '
              'get_continuation_mask implement the prefix-search recurrences; find_new_prefixes, find_matching, get_new/old_prefixes_positions, '
              'adjust_for_prefix_joining (mass of parent+last-character moved to the existing child and removed from the parent, exactly there); '
-             'the beam loop keeps pairwise distinct prefixes of real characters with non-zero probability (=> pairwise distinct transcripts), and '
+             'the beam loop keeps pairwise distinct prefixes of real characters with non-zero probability (=> pairwise distinct transcripts), '
+             'keeps Pb[p] <= CTCB(t, prefix p) and Pnb[p] <= CTCNB(t, prefix p) for the textbook CTC prefix-probability recurrences (=> the visual '
+             'score never exceeds the CTC log-probability of its transcript, for every beam width and pre-selection), and '
              'raises ValueError iff the normalisation deviation exceeds the tolerance.  top_k and the pre-selection are ASSUMED contracts.  '
-             'BOUNDED, not proved: vis_sc <= CTC log-probability, exact bag when unpruned, equality with a reference frame-synchronous k-best '
+             'BOUNDED, not proved: exact bag when unpruned, equality with a reference frame-synchronous k-best '
              'prefix beam search, on every matrix with quarter-probability rows (T<=3, 3 classes, k in {1,2,3,1e6}, default and non-pruning selector).'),
     'note': ('Trusted: pyvc; assumed contracts of multisort.top_k and of the pre-selection callable; blank probability non-zero per frame; logaddexp is an '
-             'uninterpreted commutative function; executable specs (alpha recursion validated against enumeration of all alignments), float '
+             'uninterpreted commutative monotone function; the recurrences CTCB/CTCNB equal the log-sum over all alignments (validated against enumeration on every run, not proved); executable specs (alpha recursion validated against enumeration of all alignments), float '
              'comparisons with 1e-6 tolerance; the numeric clauses are decided on the grid only.'),
 }
 CHECKS['C03'] = {
